@@ -848,7 +848,7 @@ func Run(c *hx.Ctx) {
 	for _, h := range fixedHistories() {
 		runHist(c, h, modeVerbose)
 	}
-	n := c.N(200, 2400)
+	n := c.N(176, 2400)
 	for i := 0; i < n; i++ {
 		runHist(c, genHist(c, i), modeDigest)
 	}
